@@ -608,7 +608,11 @@ func runSQLite(args []string) {
 				for _, m := range ms {
 					vals := make([]any, len(st.cols))
 					for i, c := range st.cols {
-						vals[i] = m[c]
+						v, present := m[c]
+						vals[i] = v
+						if !present {
+							vals[i] = "<key missing>" // a NULL is a key holding nil, not an absent key
+						}
 						if b, ok := vals[i].([]byte); ok {
 							vals[i] = fmt.Sprintf("blob:%x", b)
 						}
